@@ -218,7 +218,7 @@ ANNOT_INST = {
 
 
 class Analyzer:
-    def __init__(self, prog: Program, exact: bool = False, max_iter: int = 12):
+    def __init__(self, prog: Program, exact: bool = False, max_iter: int = 16):
         self.prog = prog
         self.exact = exact
         self.max_iter = max_iter
@@ -231,12 +231,16 @@ class Analyzer:
         self.lambdas: Dict[str, ast.Lambda] = {}
         self.stats = {"ctx": 0, "calls_resolved": 0, "calls_unresolved": 0, "iterations": 0, "transfers": 0}
         self.depth = 0
+        self.observed: Dict[str, List[Optional[Val]]] = {}
+        self.widen_after = 8
         self.ftab_ver = 0
         self.notes: List[str] = []
 
     # ------------------------------------------------------------------ driver
-    def run(self):
+    def run(self, roots: Optional[List[str]] = None):
         funcs = [f for f in self.prog.all_functions() if not _is_abstract(f)]
+        if roots is not None:
+            funcs = [self.prog.func(q) for q in roots]
         for it in range(self.max_iter):
             self.iteration = it
             self.changed = False
@@ -316,7 +320,7 @@ class Analyzer:
                 el = joinall(self.annot_val(a, depth + 1) for a in args if not (isinstance(a, ast.Constant) and a.value is Ellipsis))
                 # element annotations are loose in this repository (Tuple[float] is used for tuples of
                 # tuples as well): keep the kind, but do not claim the element type
-                if el is not None and not any(t.startswith("inst:") for t in el.ty):
+                if el is not None and not any(t.startswith("inst:") for t in el.ty) and not (el.ty & {"tuple", "list", "ndarray"}):
                     el = el.with_(ty=el.ty | {"?"})
                 return Val(ty={"tuple", "list", "ndarray"}, elem=el if el is not None else UNKNOWN)
             if bn == "Callable":
@@ -365,7 +369,8 @@ class Analyzer:
         kinds = None
         if self.exact:
             k = v.all_kinds() - {"N"}
-            kinds = frozenset("E" if x in ("Z", "Q") else x for x in k)
+            # containing floats / unknown numbers or not
+            kinds = bool(k - {"I", "Z", "Q"})
         e = v.iter_join() if d < 1 else None
         ek = None
         if e is not None and any(t.startswith(("inst:", "func:", "bfunc:")) for t in e.ty):
@@ -403,13 +408,38 @@ class Analyzer:
         )
 
     def analyze_root(self, fi: FuncInfo) -> Ctx:
+        """the root context of a function is the merged view: annotation seeds joined with the types /
+        kinds / constants of every actual argument observed at a call site of the program"""
         seeds = self.seed_params(fi)
-        ctx = self._ctx(fi, seeds)
+        obs = self.observed.get(fi.qual)
+        if obs:
+            seeds = [join(s_, o) if o is not None else s_ for s_, o in zip(seeds, obs + [None] * (len(seeds) - len(obs)))]
+        ctx = self._ctx(fi, seeds, observe=False)
         self.roots[fi.qual] = ctx
         self._analyze_ctx(ctx)
         return ctx
 
-    def _ctx(self, fi: FuncInfo, args: List[Val]) -> Ctx:
+    @staticmethod
+    def _strip(v: Optional[Val], d=0) -> Optional[Val]:
+        if v is None:
+            return None
+        e = v.iter_join()
+        const = v.const if v.const is not None and all(c is None or isinstance(c, (str, bool)) for c in v.const) else None
+        return Val(ty=v.ty, kind=v.kind, const=const, elem=Analyzer._strip(e, d + 1) if d < 2 else None, fsrc=v.fsrc)
+
+    def _ctx(self, fi: FuncInfo, args: List[Val], observe: bool = True) -> Ctx:
+        if observe:
+            obs = self.observed.setdefault(fi.qual, [])
+            for i, a in enumerate(args):
+                sa = self._strip(a)
+                if i >= len(obs):
+                    obs.append(sa)
+                else:
+                    j = join(obs[i], sa)
+                    if j is not None:
+                        j = j.trunc()
+                    if j != obs[i]:
+                        obs[i] = j
         key = (fi.qual, tuple(self._akey(a) for a in args))
         ctx = self.ctxs.get(key)
         params = [self.param_val(i, a) for i, a in enumerate(args)]
@@ -504,6 +534,7 @@ class FuncInterp(ModelsMixin, CallModelsMixin):
         self.yields: Optional[Val] = None
         self.exit_state: Optional[State] = None
         self.dead = False
+        self.alts: List[list] = []
         self.nraise = set()
         self.normal_live = self.cfg.normal_live()
 
@@ -541,9 +572,13 @@ class FuncInterp(ModelsMixin, CallModelsMixin):
                 continue
             self.nraise = set()
             self.dead = False
+            self.alts = []
             outs = self.transfer(node, s_in)
             if self.dead:
                 outs = {k: v for k, v in outs.items() if k == "exc"}
+            for s_o in outs.values():
+                if s_o is not None and len(s_o.heap) > 48:
+                    self.gc(s_o)
             if self.nraise:
                 ctx.node_raises[nid] = set(self.nraise)
                 self.escape(node)
@@ -582,20 +617,57 @@ class FuncInterp(ModelsMixin, CallModelsMixin):
         new.raises = frozenset(ctx.raises)
         old = ctx.summary
         merged = Summary()
-        merged.ret = join(old.ret, new.ret)
-        if merged.ret is not None:
-            merged.ret = merged.ret.trunc()
-        merged.heap = dict(old.heap)
-        for k, v in new.heap.items():
-            merged.heap[k] = join(merged.heap.get(k), v)
-        merged.effects = old.effects | new.effects
-        merged.raises = old.raises | new.raises
+        if self.A.iteration < self.A.widen_after:
+            # plain chaotic iteration from bottom: the transfer functions are monotone in the callee
+            # summaries, so results only grow; no accumulation of early (partial) approximations
+            merged.ret = new.ret.trunc() if new.ret is not None else None
+            merged.heap = dict(new.heap)
+            merged.effects = new.effects
+            merged.raises = new.raises
+        else:
+            merged.ret = join(old.ret, new.ret)
+            if merged.ret is not None:
+                merged.ret = merged.ret.trunc()
+            merged.heap = dict(old.heap)
+            for k, v in new.heap.items():
+                merged.heap[k] = join(merged.heap.get(k), v)
+            merged.effects = old.effects | new.effects
+            merged.raises = old.raises | new.raises
         if not merged.same(old):
             self.A.changed = True
             merged.version = old.version + 1
         else:
             merged.version = old.version
         ctx.summary = merged
+
+    def gc(self, st: State):
+        """drop heap entries of fresh objects that nothing designates any more"""
+        roots = []
+        for v in st.env.values():
+            roots.extend(v.all_pts())
+        if self.ret is not None:
+            roots.extend(self.ret.all_pts())
+        byobj: Dict[tuple, list] = {}
+        for (o, f), v in st.heap.items():
+            byobj.setdefault(o, []).append(v)
+            if o[0] != "N":
+                roots.append(o)
+        seen = set()
+        todo = roots
+        while todo:
+            o = todo.pop()
+            if o in seen:
+                continue
+            seen.add(o)
+            b = o
+            while b[0] in ("F", "E"):
+                b = b[1]
+                if b not in seen:
+                    todo.append(b)
+            for v in byobj.get(o, ()):
+                todo.extend(v.all_pts())
+        for k in [k for k in st.heap if k[0][0] == "N" and k[0] not in seen]:
+            del st.heap[k]
 
     def reachable_objs(self, ret: Optional[Val], heap) -> set:
         seen = set()
@@ -721,6 +793,16 @@ class FuncInterp(ModelsMixin, CallModelsMixin):
             )
 
         return build(t, fobj)
+
+    def _grp_push(self):
+        self.alts.append([0, 0])
+
+    def _grp_pop(self, res: Optional[Val] = None, other: bool = False):
+        """end of a dispatch over alternative callees: dead iff every alternative is bottom and nothing
+        else (a builtin meaning of the construct) produced a value"""
+        n, b = self.alts.pop()
+        if n > 0 and b == n and not other and (res is None or (not res.ty and not res.pts)):
+            self.dead = True
 
     def recv_for(self, v: Val, c: str) -> Val:
         """the part of v that may be an instance of repository class c (receiver of a dispatched call)"""
@@ -851,6 +933,18 @@ class FuncInterp(ModelsMixin, CallModelsMixin):
                 self.assign(a.target, self.ev(a.value, st), st, a)
         elif isinstance(a, ast.AugAssign):
             self.augassign(a, st)
+        elif isinstance(a, ast.Expr) and isinstance(a.value, ast.Call) and isinstance(a.value.func, ast.Name) and a.value.func.id == "iter" and len(a.value.args) == 1 and isinstance(a.value.args[0], ast.Name) and a.value.args[0].id in st.env:
+            # `iter(x)` used as an is-iterable probe: on the exceptional edge x is not iterable
+            self.ev(a.value, st)
+            nm = a.value.args[0].id
+            v = st.env[nm]
+            scal = v.ty & {"number", "int", "float", "bool", "None", "?", "callable"}
+            ex = self.exc_state(s_in, st)
+            if scal:
+                ex.env[nm] = v.with_(ty=scal, elem=None, items=None, pts=EMPTY if not ("?" in scal) else v.pts, kind=(v.kind - {"N"}) or v.kind)
+            outs["n"] = st
+            outs["exc"] = ex if scal else None
+            return outs
         elif isinstance(a, ast.Expr):
             if isinstance(a.value, (ast.Yield, ast.YieldFrom)):
                 yv = self.ev(a.value.value, st) if a.value.value is not None else NONE
@@ -973,6 +1067,7 @@ class FuncInterp(ModelsMixin, CallModelsMixin):
 
     def store_attr(self, base: Val, attr: str, v: Val, st: State, node):
         handled = False
+        self._grp_push()
         for c in base.insts():
             setters = self.prog.lookup(c, attr, "setter")
             if setters:
@@ -984,6 +1079,7 @@ class FuncInterp(ModelsMixin, CallModelsMixin):
                 self.rec_call(node, setters, args, "setter", recv=base)
             elif self.prog.lookup(c, attr, "getter"):
                 handled = True  # read-only property: AttributeError at run time
+        self._grp_pop(None, other=not handled)
         if not handled:
             f = mangle(self.fi.clsname, attr)
             if base.pts:
@@ -1072,6 +1168,7 @@ class FuncInterp(ModelsMixin, CallModelsMixin):
         dun = INPLACE.get(type(op))
         handled_inst = False
         callees, argl = [], []
+        self._grp_push()
         for c in lv.insts():
             ms = self.prog.lookup(c, dun) if dun else []
             if ms:
@@ -1084,8 +1181,9 @@ class FuncInterp(ModelsMixin, CallModelsMixin):
         if callees:
             self.rec_call(node, callees, argl, "augop", recv=lv)
         non_inst = lv.ty - {t for t in lv.ty if t.startswith("inst:")}
+        self._grp_pop(joinall(results) if results else None, other=bool(non_inst) or not handled_inst)
         if handled_inst and not non_inst:
-            return joinall(results)
+            return joinall(results) or Val()
         res = self.binop(op, lv, rv, st, node, aug=True)
         if lv.ty & MUTABLE_TY or "?" in lv.ty or (not lv.ty and lv.pts):
             # in-place on the object itself; numbers inside an ndarray are not objects of their own
@@ -1141,12 +1239,14 @@ class FuncInterp(ModelsMixin, CallModelsMixin):
             res = None
             dn = {ast.USub: "__neg__", ast.UAdd: "__pos__", ast.Invert: "__invert__"}[type(e.op)]
             callees, argl = [], []
+            self._grp_push()
             for c in v.insts():
                 for m in self.prog.lookup(c, dn):
                     r, bound = self.call_func(m, [self.recv_for(v, c)], {}, st, e, "unop", record=False)
                     callees.append(m)
                     argl.append(bound)
                     res = join(res, r)
+            self._grp_pop(res, other=bool(v.ty - {t for t in v.ty if t.startswith("inst:")}) or not callees)
             if callees:
                 self.rec_call(e, callees, argl, "unop", recv=v)
             if res is None or (v.ty - {t for t in v.ty if t.startswith("inst:")}):
@@ -1320,11 +1420,15 @@ class FuncInterp(ModelsMixin, CallModelsMixin):
         res = None
         handled = set()
         getters_called, argl = [], []
+        self._grp_push()
         for t in base.ty:
             if t.startswith("inst:"):
                 c = t[5:]
                 if attr == "__class__":
-                    cs = {"cls:" + c} | {"cls:" + x for x in self.prog.all_subclasses(c)}
+                    subs = self.prog.all_subclasses(c)
+                    # a base class that has subclasses stands for its concrete subclasses (BaseCurve is only
+                    # ever instantiated as Curve, IndexableFunction / BaseFunction as Function)
+                    cs = {"cls:" + x for x in subs if not self.prog.all_subclasses(x)} if subs else {"cls:" + c}
                     res = join(res, Val(ty=cs, const=cs, kind={"N"}))
                     continue
                 gs = self.prog.lookup(c, attr, "getter")
@@ -1412,6 +1516,7 @@ class FuncInterp(ModelsMixin, CallModelsMixin):
                 pass
             else:
                 handled.add(t)
+        self._grp_pop(res, other=bool(handled))
         insts = base.insts()
         if len(insts) > 1 and isinstance(node, ast.Attribute) and isinstance(node.value, ast.Name) and node.value.id in st.env and not handled:
             has = [c for c in insts if self.prog.lookup(c, attr, "getter", down=False) or self.prog.lookup(c, attr, "method", down=False) or self.prog.lookup(c, attr, "setter", down=False)]
@@ -1528,7 +1633,11 @@ class FuncInterp(ModelsMixin, CallModelsMixin):
         callees, argl = [], []
         recvs = None
         star = star or [False] * len(pos)
+        self._grp_push()
+        n_other = 0
         for t in sorted(fv.ty):
+            if not t.startswith(("func:", "bfunc:", "cls:")) and t not in ("None", "int", "float", "number", "bool", "str", "tuple", "list", "set", "dict", "ndarray", "slice", "exc", "const", "range", "iter"):
+                n_other += 1
             if t.startswith("func:"):
                 fi = self.prog.funcs.get(t[5:])
                 if fi is None:
@@ -1572,6 +1681,7 @@ class FuncInterp(ModelsMixin, CallModelsMixin):
                 d = fv.dep.union(*[p.dep for p in pos]) if pos else fv.dep
                 m = fv.mdep.union(*[p.mdep for p in pos]) if pos else fv.mdep
                 res = join(res, Val(ty={"?"}, pts={("N", self.site(node, "ucall"))}, dep=d, mdep=m, kind=self.A.user_number().kind))
+        self._grp_pop(res, other=n_other > 0)
         if callees:
             self.rec_call(node, callees, argl, "call", recv=recvs, ret=res)
             self.A.stats["calls_resolved"] += 1
@@ -1638,6 +1748,24 @@ class FuncInterp(ModelsMixin, CallModelsMixin):
         if summ.raises:
             self.nraise |= summ.raises
         ret = self.apply_summary(fi, summ, args, st, node)
+        if self.A.exact and fi.qual == "heavy.number_type" and args and ret is not None:
+            # recognised dispatch idiom (DESIGN §1): the class returned for a nest of numbers follows from
+            # the kinds of its leaves; the interpreter derives exactly this for a scalar argument, the
+            # recursion over containers is summarised here to avoid the imprecision of shared contexts
+            ks = args[0].all_kinds() - {"N"}
+            cs = set()
+            if ks & {"I", "Z"}:
+                cs |= {"cls:int", "cls:Fraction"}
+            if ks & {"Q"}:
+                cs |= {"cls:Fraction", "cls:int"} if ks & {"I", "Z"} else {"cls:Fraction"}
+            if ks & {"F"}:
+                cs.add("cls:float")
+            if not ks or "U" in ks:
+                self.A.stats["u_guards"] = self.A.stats.get("u_guards", 0) + 1
+                cs |= {"cls:int", "cls:Fraction"} if not (ks & {"F"}) else set()
+            if cs and ret.const is not None:
+                cs &= set(ret.const) | cs
+                ret = ret.with_(const=frozenset(cs), ty=frozenset(cs))
         names = list(fi.params) + ([fi.vararg] if getattr(fi, "vararg", None) else [])
         bound = dict(zip(names, args))
         if record:
@@ -1659,9 +1787,13 @@ class FuncInterp(ModelsMixin, CallModelsMixin):
             if not tg:
                 continue
             updates.append((tg, f, sub.val(v)))
-        if summ.ret is None:
-            # bottom: the callee has no return yet (recursion in progress / it always raises):
-            # the statement does not complete normally in this approximation
+        # bottom (summ.ret is None): the callee has no return yet (recursion in progress / it always
+        # raises). The dispatching construct is dead only if *all* its alternatives are bottom (_grp_pop).
+        if self.alts:
+            self.alts[-1][0] += 1
+            if summ.ret is None:
+                self.alts[-1][1] += 1
+        elif summ.ret is None:
             self.dead = True
         ret = sub.val(summ.ret) if summ.ret is not None else Val()
         strong: Dict[tuple, Val] = {}
@@ -1742,7 +1874,7 @@ class _Subst:
         for tag, objs in bytag.items():
             for k, o in enumerate(objs):
                 t2 = f"{tag}~{fi.name}"
-                self.nmap[o] = ("N", fx.site(node, t2 if k == 0 else f"{t2}#{min(k, 3)}"))
+                self.nmap[o] = ("N", fx.site(node, t2 if k == 0 else f"{t2}#{min(k, 2)}"))
 
     def obj(self, o) -> frozenset:
         r = self.ocache.get(o)
